@@ -83,7 +83,7 @@ def replay(case, ctx):
     eig = np.linalg.eigvals(A)
     tg.add(f'order:{len(eig)}')
     tg.add('complex_poles' if np.any(np.abs(eig.imag) > 1e-12) else 'real_poles')
-    variants = case.get('schemes') or [(0,), ((h0 % (N_SCHEMES - 1)) + 1,)]
+    variants = case.get('schemes') or [(0,), ((h0 % (N_SCHEMES - 1)) + 1 + N_SCHEMES * (1 + (h0 >> 13) % 2),)]       # + k * N_SCHEMES: another within-role index table of the names (common.ID_PERMS)
     variants = [tuple(v) for v in variants]
     if 'schemes' not in case and (ctx.get('tier') == 'thorough' or h0 % 2 == 0):
         # the same circuit under the same names with other capacitances / inductances (frequency unit 10 ... 1e9: C/wu, L/wu) on a time axis
